@@ -7,7 +7,6 @@ import (
 	"os"
 	"strings"
 
-	"github.com/Trendyol/go-dcp/helpers"
 	"github.com/couchbase/gocbcore/v10"
 
 	"verif/vrt"
@@ -232,7 +231,7 @@ func init() {
 						continue
 					}
 					c.Append(vb, pk)
-					if isDoc(pk.Kind) && !strings.HasPrefix(string(pk.Key), helpers.Prefix) {
+					if isDoc(pk.Kind) && !strings.HasPrefix(string(pk.Key), reservedPrefix) {
 						want[vb] = append(want[vb], pk)
 					}
 				}
